@@ -103,6 +103,10 @@ class ModelCalc(Calculator):
             self._buf[:] = self.atoms.positions  # raises on a stale size, like EMT/LJ would
         e, f = model_energy_forces(self.kind, self.atoms.positions, self.atoms.cell.array, self.atoms.numbers, self.params)
         self.results = {"energy": e, "free_energy": e, "forces": f}
+        if self.style == "smeared":
+            # like a DFT code with electronic smearing: the force-consistent free energy is another number than the
+            # (extrapolated) energy that ASE's get_potential_energy() returns by default
+            self.results["free_energy"] = e - 0.05 - 0.013 * float(np.sin(self.atoms.positions.sum()))
         if self.committee:
             # deterministic committee: member m scales the forces/energy by (1 + c_m)
             cs = np.asarray(self.committee, dtype=float)
